@@ -8,7 +8,8 @@ Local Open Scope Z_scope.
 
 (* AUTO: a node that received an instance never ends more than one above a node
    that could still have taken one *)
-Theorem C03_auto : forall infos need limit total p,
+Theorem C03_auto :
+  forall infos need limit total p,
   valid_infos infos -> 0 < need -> 0 <= limit ->
   deploy Auto need limit infos total = Ok p ->
   forall a b, In a infos -> In b infos ->
@@ -19,7 +20,8 @@ Print Assumptions C03_auto.
 
 (* GLOBAL: float-exact form of "never ends above a node with spare capacity by
    more than that node's per-instance share" (usage, rate finite, rate >= 0) *)
-Theorem C03_global : forall infos need limit total p,
+Theorem C03_global :
+  forall infos need limit total p,
   valid_infos infos -> 0 < need -> 0 <= limit -> float_ok infos ->
   deploy Global need limit infos total = Ok p ->
   forall a b, In a infos -> In b infos ->
@@ -29,7 +31,8 @@ Proof. exact C03_global_stmt. Qed.
 Print Assumptions C03_global.
 
 (* DRAINED: every smaller-capacity node is filled completely before a larger one is used *)
-Theorem C03_drained : forall infos need limit total p,
+Theorem C03_drained :
+  forall infos need limit total p,
   valid_infos infos -> 0 < need -> 0 <= limit ->
   deploy Drained need limit infos total = Ok p ->
   forall a b, In a infos -> In b infos ->
@@ -38,7 +41,8 @@ Proof. exact C03_drained_stmt. Qed.
 Print Assumptions C03_drained.
 
 (* EACH: the selected nodes are those with the most capacity *)
-Theorem C03_each : forall infos need limit total p,
+Theorem C03_each :
+  forall infos need limit total p,
   valid_infos infos -> 0 < need -> 0 <= limit ->
   deploy Each need limit infos total = Ok p ->
   forall a b, In a infos -> In b infos ->
@@ -47,7 +51,8 @@ Proof. exact C03_each_stmt. Qed.
 Print Assumptions C03_each.
 
 (* FILL: nodes already running more instances are preferred (then more capacity) *)
-Theorem C03_fill : forall infos need limit total p,
+Theorem C03_fill :
+  forall infos need limit total p,
   valid_infos infos -> 0 < need -> 0 <= limit ->
   is_plan (deploy Fill need limit infos total) p ->
   forall a b, In a infos -> In b infos ->
@@ -56,25 +61,21 @@ Theorem C03_fill : forall infos need limit total p,
 Proof. exact C03_fill_stmt. Qed.
 Print Assumptions C03_fill.
 
+(* the three sort-based rules for every sorted permutation *)
 (* the same three rules for EVERY sorted permutation sort.Slice may produce *)
-Theorem C03_each_any_sorted_order : forall infos sorted need limit,
+Theorem C03_any_sorted_order :
+  (forall infos sorted need limit,
   valid_infos infos -> Permutation infos sorted -> Sorted (ngt each_less) sorted -> 0 <= limit ->
-  forall p, each_from sorted need (each_limit infos limit) = Ok p -> C03_spec Each need limit infos p.
-Proof. exact each_C03. Qed.
-Print Assumptions C03_each_any_sorted_order.
-
-Theorem C03_fill_any_sorted_order : forall infos sorted need limit,
+  forall p, each_from sorted need (each_limit infos limit) = Ok p -> C03_spec Each need limit infos p) /\
+  (forall infos sorted need limit,
   valid_infos infos -> Permutation infos sorted -> Sorted (ngt fill_less) sorted -> 0 <= limit ->
   forall r p, fill_from sorted need (each_limit infos limit) = r -> is_plan r p ->
-  C03_spec Fill need limit infos p.
-Proof. exact fill_C03. Qed.
-Print Assumptions C03_fill_any_sorted_order.
-
-Theorem C03_drained_any_sorted_order : forall infos sorted need total,
+  C03_spec Fill need limit infos p) /\
+  (forall infos sorted need total,
   valid_infos infos -> Permutation infos sorted -> Sorted (ngt drained_less) sorted -> 0 < need ->
-  forall p limit, drained_from sorted need total = Ok p -> C03_spec Drained need limit infos p.
-Proof. exact drained_C03. Qed.
-Print Assumptions C03_drained_any_sorted_order.
+  forall p limit, drained_from sorted need total = Ok p -> C03_spec Drained need limit infos p).
+Proof. exact (conj each_C03 (conj fill_C03 drained_C03)). Qed.
+Print Assumptions C03_any_sorted_order.
 
 (* the code before the repair (/repo: "fix: DRAINED sort comparator ...") violated
    the property: big (capacity 3) got both instances, small (capacity 1) none *)
@@ -83,21 +84,22 @@ Theorem C03_drained_old_refuted :
 Proof. exact drained_old_refuted. Qed.
 Print Assumptions C03_drained_old_refuted.
 
-Theorem C03_ok_reflects : forall s need limit infos p,
-  all_pairs (C03_pair s need limit p) infos = true <-> C03_spec s need limit infos p.
-Proof. exact C03_reflect. Qed.
-Print Assumptions C03_ok_reflects.
+(* the boolean check decides the specification, and the model's output passes it *)
+Theorem C03_ok_reflects_and_sound :
+  (forall s need limit infos p,
+  all_pairs (C03_pair s need limit p) infos = true <-> C03_spec s need limit infos p) /\
+  (forall s need limit infos total ord,
+  C03_ok (mkCase s need limit infos total (deploy s need limit infos total) ord) = true).
+Proof. exact (conj C03_reflect C03_ok_model). Qed.
+Print Assumptions C03_ok_reflects_and_sound.
 
-Theorem C03_ok_sound_on_model : forall s need limit infos total ord,
-  C03_ok (mkCase s need limit infos total (deploy s need limit infos total) ord) = true.
-Proof. exact C03_ok_model. Qed.
-Print Assumptions C03_ok_sound_on_model.
-
-Theorem C03_hypotheses_satisfiable : valid_infos ex_infos /\ float_ok ex_infos.
+Theorem C03_hypotheses_satisfiable :
+  valid_infos ex_infos /\ float_ok ex_infos.
 Proof. exact (conj ex_valid ex_float_ok). Qed.
 Print Assumptions C03_hypotheses_satisfiable.
 
-Theorem C03_glue : forall caps order status need limit total,
+Theorem C03_glue :
+  forall caps order status need limit total,
   valid_caps caps status -> Permutation caps order -> 0 < need -> 0 <= limit ->
   forall s p, (s = Global -> float_ok (glue_infos order status)) ->
   glue s need limit order status total = Ok p ->
@@ -105,9 +107,11 @@ Theorem C03_glue : forall caps order status need limit total,
 Proof. exact glue_C03. Qed.
 Print Assumptions C03_glue.
 
-Theorem C03_rules_int64 : forall s need limit infos total,
+Theorem C03_rules_int64 :
+  forall s need limit infos total,
   NoDup (names infos) -> dom64 s need limit infos ->
   forall p, (s = Global -> float_ok infos) ->
   is_plan (deployW s need limit infos total) p -> C03_spec s need limit infos p.
 Proof. exact C03_rules_W. Qed.
 Print Assumptions C03_rules_int64.
+
